@@ -231,6 +231,16 @@ pub fn malformed(seed: u64) -> usize {
         let n = (xorshift(&mut x) % 40) as usize;
         bodies.push((0..n).map(|_| xorshift(&mut x) as u8).collect());
     }
+    // well-formed frames whose first string is long and has a multi-byte character straddling a round offset (16, 255, 256, 32767)
+    for cut in [15usize, 16, 254, 255, 256, 32766, 32767] {
+        for ch in ["é", "€", "𝄞"] {
+            for back in 0..ch.len() {
+                let text = format!("{}{}{}", "a".repeat(cut - back), ch, "b".repeat(8));
+                bodies.push(Enc::default().varint(767).string(&text).be(25565, 2).varint(2).0);
+                bodies.push(Enc::default().string(&text).be(1u128, 16).0);
+            }
+        }
+    }
     macro_rules! try_all { ($body:expr; $($t:ty),* $(,)?) => { $( {
         let b: Vec<u8> = $body.clone();
         reset_alloc();
